@@ -216,6 +216,10 @@ def constant_metrics(d, seed=0, include_implicit=True):
         m.sqrt, m.inv, m.log_abs_det  # noqa: B018
         return 2.5 * m
 
+    # legal but extreme scale (a metric in other units): heavy masses.  (A light metric, 1e-6,
+    # was tried and dropped: the finite-difference and matrix-exponential oracles lose their
+    # accuracy at frequencies of 1e3, which showed as alarms of the oracles, not of the code.)
+    out += [("derived_heavy_identity", lambda: M.PositiveScaledIdentityMatrix(1e8, d), 1e8 * I)]
     out += [("derived_scaled_inv_dense", _scaled_inv, 0.25 * B),
             ("derived_used_then_divided", _used_then_divided, B / 0.4),
             ("derived_diag_used_then_scaled", _diag_used_then_scaled, 2.5 * np.diag(diag))]
